@@ -22,7 +22,7 @@ VARIABLES l, val, dummy
 tvars == <<l, val, dummy>>
 
 \* the system modules' operators, instantiated without their state
-TL == INSTANCE TimeLock WITH Keys <- {}, Ids <- {}, Lens <- {}, Depth <- 0, MaxN <- 0, Deviations <- {}, Emit <- FALSE,
+TL == INSTANCE TimeLock WITH Keys <- {}, Ids <- {}, Lens <- {}, Depth <- 0, MaxN <- 0, BigTN <- {}, Deviations <- {}, Emit <- FALSE,
                              phase <- dummy, ct <- dummy, last <- dummy
 SC == INSTANCE SignCrypt WITH Keys <- {}, Lens <- {}, Depth <- 0, MaxN <- 0, BigTN <- {}, Modes <- {}, Deviations <- {}, Emit <- FALSE,
                               phase <- dummy, ct <- dummy, other <- dummy, deal <- dummy, last <- dummy
